@@ -1,7 +1,7 @@
 # Builds the repository (from /repo's current working tree) in sanitizer variants, plus the
 # harness binaries.  Everything lands in /verif/build.  See DESIGN.md section 2.3.
 REPO    ?= /repo
-B       := build
+B       ?= build
 GUARD   := EPHEMERALNET_VERIF
 
 CXX_A   := clang++
